@@ -83,6 +83,11 @@ func (x *fnCtx) doCall(st *State, in ssa.Instruction, c *ssa.CallCommon, val ssa
 // callValue performs a call with already evaluated operands (also used for defers).
 func (x *fnCtx) callValue(st *State, in ssa.Instruction, c *ssa.CallCommon, fnv *Val, args []*Val, val ssa.Value, k func(*State, *Val)) {
 	fr := st.top()
+	if _, isBuiltin := c.Value.(*ssa.Builtin); !isBuiltin {
+		for _, a := range args {
+			st.markEscaped(a)
+		}
+	}
 	name := calleeName(c)
 	var rt types.Type
 	sig := c.Signature()
